@@ -27,6 +27,9 @@ Proof. intros A A' HA i j Hi Hj. unfold fscal. rewrite HA; auto. Qed.
 Lemma fadj_invol_feq A : feq d (fadj (fadj A)) A.
 Proof. intros i j _ _. apply fadj_invol. Qed.
 
+Lemma fmul_cancel_l A B X : feq d (fmul d A B) fid -> feq d (fmul d A (fmul d B X)) X.
+Proof. intros H. rewrite fmul_assoc, H. apply fmul_id_l. Qed.
+
 (* diagonal matrices *)
 Definition fdiag (u : nat -> Cx) : fmat := fun i j => if Nat.eqb i j then u i else 0c.
 Lemma fmul_fdiag_l u A i j : (i < d)%nat -> fmul d (fdiag u) A i j = cmul' (u i) (A i j).
